@@ -1166,3 +1166,24 @@ def c11_e1(run):
 EXPLAIN['C11'] = ('Kani: the RealField constants of the field-compatible types have the bits of the std constants '
                   'and no derivative parts; selection methods and the single-lane SIMD view keep every part; '
                   'E1: field methods are the generic dual operations (EUF-identical traces)')
+
+
+def c10(run):
+    from . import kani_run
+    kani_run.run_group(run, 'C10')
+    run.bounds = {'points': 'powi n in 0..6 and powf (integer n in 0..8, non-integer n above the order, n < 64) at '
+                            '+-0; atan2 on both axes with the non-zero coordinate in {+-1/2,+-1,+-2,+-4}; '
+                            'exp_m1, ln_1p at +-0; sph_j0/1/2 at +-0, +-2^-60, +-2^-1074; bessel_j0/1/2 at +-0, '
+                            '+-2^-1074',
+                  'parts': 'symbolic small integers or finite floats where stated in the harness, concrete '
+                           '(1, 1/2, 1/4) for the third-order Bessel / spherical Bessel harnesses',
+                  'outside': 'arbitrary floating-point neighbours of the points (only the listed ones); '
+                             'types beyond Dual, Dual2, Dual3, HyperDual, HyperHyperDual, DualVec<2> over f64'}
+    run.assumptions += ['libm functions are uninterpreted functions knowing only exact IEEE facts at the visited '
+                        'points (sin(+-0)=+-0, cos(0)=1, exp(0)=1, exp_m1(0)=0, ln_1p(0)=0, atan(0)=0, '
+                        'powf/powi special cases at a zero base or zero exponent)']
+
+
+EXPLAIN['C10'] = ('Kani/CBMC harnesses at the enumerated special points with symbolic derivative parts: every part '
+                  'of the result is finite and equals the mathematical value (exactly, or within 1e-9 absolute '
+                  'where the repository uses approximations); IEEE semantics incl. signed zeros and denormals')
